@@ -85,6 +85,10 @@ type expState struct {
 		Answered bool       `json:"answered"`
 		Pieces   []expPiece `json:"pieces"`
 		Swapped  bool       `json:"swapped"`
+		// DNS64 replies (Lease64.tla Reply64): what the AAAA reply handed to dns64 was, whether the A lookup ran, synthesis
+		Over  string `json:"over"`
+		Alook bool   `json:"alook"`
+		Synth bool   `json:"synth"`
 	} `json:"reply"`
 	Parked map[string]string `json:"parked"` // slot -> hop the model's request is waiting on
 	Live   map[string]int64  `json:"live"`   // key -> id of the live holder (0 none)
@@ -106,6 +110,14 @@ type input struct {
 	// Focus "ad": only the ComposedAD predicate (C06/C01: AD implies every piece was validated) is judged and
 	// the lifetime predicates are drift; "" (C04): the lifetime predicates are judged, ComposedAD is drift
 	Focus string `json:"focus"`
+	// DNS64 dimension (Lease64.tla, d64_test.go): V6Key = the AAAA question of the name whose A question is
+	// V4Key (V6Key is also NegKey: a NODATA + SOA entry). When set, middleware/dns64 stands in front of the cache
+	// and op Hit64 is a query from a DNS64-eligible client. Focus "c20" then judges C20's TtlMin only.
+	V6Key string `json:"v6Key"`
+	V4Key string `json:"v4Key"`
+	// FailTTL > 0: the failure dimension of Lease64.tla (ops Fail64 / HitFail): the cache's RFC 9520 back-off is
+	// pinned to FailTTL seconds (min = max) and focus "c20" also judges NeverOverFailure (cached failure)
+	FailTTL int64 `json:"failTTL"`
 }
 
 // ---------------------------------------------------------------- oracle --
@@ -115,6 +127,7 @@ type entInfo struct {
 	last   int64     // TTL last shown, -1 = never
 	ttlEff time.Duration
 	cut    time.Time
+	raw, aux int64 // what the admitted records carried (d64_test.go: the SOA MINIMUM of a NODATA entry)
 }
 
 type lease struct {
@@ -147,9 +160,12 @@ type slot struct {
 	t0      time.Time // call start
 	active  bool
 	failed  bool
+	client  string // source address of the next query ("" = the ordinary, DNS64-ineligible client)
+	d64     bool   // a Hit64 query (d64_test.go)
 }
 
 type command struct {
+	servfail bool // answer the hop with a plain SERVFAIL (Fail64: the cache records an RFC 9520 failure)
 	answer   bool
 	raw, aux int64
 	id       int64
@@ -177,6 +193,8 @@ type run struct {
 	bid    string
 	cur    *behaviour
 	slow   bool
+	front  []middleware.Handler // chain client queries enter (dns64 in front of r.chain when V6Key is set)
+	d64    d64State             // d64_test.go
 }
 
 // A wire-born request that leaves the wire ladder continues on a detached
@@ -199,6 +217,9 @@ func goid() int64 {
 
 // ----------------------------------------------------------------- names --
 func qname(key string) string {
+	if key == v6Key && v6Key != "" {
+		key = v4Key // the AAAA question of the same owner name
+	}
 	switch key {
 	case "cut":
 		return "x.gone.zc."
@@ -214,7 +235,7 @@ func keyOfName(name string) string {
 	case strings.HasSuffix(name, ".ex."):
 		return strings.TrimSuffix(name, ".ex.")
 	case name == "ex.":
-		return "ng"
+		return negName
 	case strings.HasSuffix(name, "zc."):
 		return "cut"
 	case name == "zd.":
@@ -278,10 +299,13 @@ func (r *run) answerFor(req *dns.Msg, key string, raw, aux, id int64) *dns.Msg {
 	switch {
 	case key == r.in.NegKey:
 		m.Rcode = dns.RcodeNameError
+		if key == v6Key {
+			m.Rcode = dns.RcodeSuccess // AAAA NODATA of a name that has an A RRset
+		}
 		// the second lifetime source of a negative answer is either the SOA minimum or (every other
 		// entry) the expiration of the RRSIG covering the authority section's SOA
 		min := ttl
-		viaSig := aux != noAux && id%2 == 1
+		viaSig := aux != noAux && id%2 == 1 && key != v6Key // (DNS64: aux is always the SOA MINIMUM)
 		if aux != noAux && !viaSig {
 			min = uint32(aux)
 		}
@@ -321,6 +345,9 @@ func validated(id int64) bool { return id%2 == 0 }
 func question(key string) *dns.Msg {
 	req := new(dns.Msg)
 	req.SetQuestion(qname(key), dns.TypeA)
+	if key == v6Key && v6Key != "" {
+		req.Question[0].Qtype = dns.TypeAAAA
+	}
 	req.RecursionDesired = true
 	req.AuthenticatedData = true // the client asks for validation state (no edns layer in this chain)
 	return req
@@ -368,14 +395,20 @@ func minT(a, b time.Time) time.Time {
 }
 
 func (r *run) violate(pred, what string) {
-	if (r.in.Focus == "ad") != (pred == "ComposedAD") {
+	// ComposedAD is C06/C01's (focus "ad"), TtlMin is C20's (focus "c20"), everything else C04's (focus "")
+	if owner := map[string]string{"ComposedAD": "ad", "TtlMin": "c20", "NeverOverFailure": "c20"}[pred]; owner != r.in.Focus {
 		r.res.DriftNote("%s (judged by another check): %s", pred, what)
 		return
 	}
-	r.res.Violate("c04/api/"+pred, fmt.Sprintf("middleware/cache %s after %v: %s", pred, r.hist, what),
-		map[string]any{"driver": "c04-lease", "behaviour": r.bid, "history": r.hist, "events": r.events,
+	r.res.Count("violations_"+pred, 1) // (vh keeps the first violation per predicate only)
+	driver, comp := "c04-lease", "middleware/cache"
+	if r.in.V6Key != "" {
+		driver, comp = "c04-d64", "dns64 over middleware/cache"
+	}
+	r.res.Violate("c04/api/"+pred, fmt.Sprintf("%s %s after %v: %s", comp, pred, r.hist, what),
+		map[string]any{"driver": driver, "behaviour": r.bid, "history": r.hist, "events": r.events,
 			"input": map[string]any{"chain": r.in.Chain, "negKey": r.in.NegKey, "scopedKey": r.in.ScopedKey, "ecsCap": r.in.EcsCap,
-				"cutMax": r.in.CutMax, "behaviours": []any{map[string]any{"id": r.bid, "steps": r.cur.Steps[:len(r.hist)]}}}})
+				"cutMax": r.in.CutMax, "v6Key": r.in.V6Key, "v4Key": r.in.V4Key, "failTTL": r.in.FailTTL, "focus": r.in.Focus, "behaviours": []any{map[string]any{"id": r.bid, "steps": r.cur.Steps[:len(r.hist)]}}}})
 }
 
 func argInt(a any) int64 {
@@ -405,10 +438,18 @@ func (d *downstream) ServeDNS(ctx context.Context, ch *middleware.Chain) {
 		return
 	}
 	hop := keyOfName(req.Question[0].Name)
+	if hop == v4Key && v6Key != "" && req.Question[0].Qtype == dns.TypeAAAA {
+		hop = v6Key
+	}
 	s.ev <- event{hop: hop, ctx: ctx}
 	cmd := <-s.cmd
 	if cmd.answer {
 		_ = ch.Writer.WriteMsg(d.r.answerFor(req, hop, cmd.raw, cmd.aux, cmd.id))
+	} else if cmd.servfail {
+		m := new(dns.Msg)
+		m.SetRcode(req, dns.RcodeServerFailure) // plain: no EDE, no OPT (the client sent none)
+		m.RecursionAvailable = true
+		_ = ch.Writer.WriteMsg(m)
 	}
 	ch.Cancel()
 }
@@ -424,6 +465,7 @@ func (q *queryer) Query(ctx context.Context, req *dns.Msg) (*dns.Msg, error) {
 	if !w.Written() {
 		return nil, middleware.ErrNoResponse
 	}
+	q.r.d64.noteLookup(req, w.Msg())
 	return w.Msg(), nil
 }
 
@@ -460,6 +502,11 @@ func (r *run) decode(msg *dns.Msg, path []string, fresh map[int64]bool) []obsPie
 		case *dns.A:
 			a = get(k)
 			a.id = int64(v.A[1])<<16 | int64(v.A[2])<<8 | int64(v.A[3])
+		case *dns.AAAA:
+			a = get(k)
+			if len(v.AAAA) == 16 {
+				a.id = int64(v.AAAA[13])<<16 | int64(v.AAAA[14])<<8 | int64(v.AAAA[15])
+			}
 		case *dns.TXT:
 			a = get(k)
 			if len(v.Txt) > 0 && strings.HasPrefix(v.Txt[0], "id=") {
@@ -556,7 +603,7 @@ func (r *run) key64(key string) uint64 {
 // register a freshly stored entry in the oracle and check what the store holds now
 func (r *run) stored(key string, id, raw, aux int64, tHi time.Time, lineage time.Time, ev map[string]any) {
 	ttl := r.effTTL(raw, aux, r.kindOf(key))
-	e := &entInfo{key: key, ttlEff: ttl, cut: lineage, last: -1, expHi: minT(tHi.Add(ttl), lineage)}
+	e := &entInfo{key: key, ttlEff: ttl, cut: lineage, last: -1, expHi: minT(tHi.Add(ttl), lineage), raw: raw, aux: aux}
 	r.ents[id] = e
 	// clause (c) / the TTL rule on what was actually stored (read through the public accessor)
 	ent := r.store.VerifC04Peek(r.key64(key))
@@ -602,10 +649,19 @@ func (r *run) launch(sl *slot, key, route string) {
 	sl.meta.Reset()
 	sl.metas = map[int]*middleware.ResponseMeta{}
 	sl.leases, sl.pend, sl.failed, sl.lvl, sl.hop = nil, nil, false, 0, ""
-	sl.w = mock.NewWriter("udp", "203.0.113.9:4000")
+	client := "203.0.113.9:4000"
+	if sl.client != "" {
+		client, sl.client = sl.client, ""
+	}
+	sl.w = mock.NewWriter("udp", client)
 	sl.active = true
 	ctx := middleware.WithResponseMeta(context.Background(), &sl.meta)
-	ch := middleware.NewChain(r.chain)
+	if sl.d64 {
+		// as the server does it: the chain owns the request's ResponseMeta (&ch.Meta, established by Chain.Next);
+		// a wire-born request that dns64 materialises continues on a detached context with a COPY of it
+		ctx = context.Background()
+	}
+	ch := middleware.NewChain(r.front)
 	sl.wreq = nil
 	switch route {
 	case "wire":
@@ -680,7 +736,12 @@ func (r *run) complete(sl *slot, ev map[string]any, where string) []obsPiece {
 			}
 		}
 	}
-	r.checkPieces(pcs, sl.t0, where)
+	if sl.d64 {
+		pcs = r.checkD64(sl, pcs, answered, where) // the composed reply of a DNS64 client (d64_test.go)
+	} else {
+		r.checkPieces(pcs, sl.t0, where)
+		r.noteWireServe(sl, pcs, answered)
+	}
 	// C06/C01 on composed replies: AD only when every piece of the reply was validated
 	if answered && sl.w.Msg().AuthenticatedData {
 		answered := map[string]bool{r.in.NegKey: true, r.in.ScopedKey: true}
@@ -718,7 +779,7 @@ func (r *run) complete(sl *slot, ev map[string]any, where string) []obsPiece {
 	}
 	// clause (c): the request-tree cut is bounded by every piece and lease
 	rootcut := sl.meta.CutUntil()
-	rootSeen := sl.route != "scoped"
+	rootSeen := sl.route != "scoped" && !sl.d64 // (nothing is re-cached from a DNS64 reply: its tree cut is not judged)
 	if sl.wreq != nil && !sl.wreq.Undecoded() {
 		// the wire ladder declined: the rest of the request ran on a detached copy of
 		// the meta, observable only if the request reached the downstream handler
@@ -731,6 +792,9 @@ func (r *run) complete(sl *slot, ev map[string]any, where string) []obsPiece {
 	bound := pieceExp(1)
 	for _, L := range eff {
 		bound = minT(bound, L.d)
+	}
+	if sl.d64 && !bound.IsZero() && (rootcut.IsZero() || rootcut.After(bound)) {
+		r.res.Count("d64_rootcut_looser_than_pieces", 1) // observation only (see rootSeen)
 	}
 	if rootSeen && !bound.IsZero() && (rootcut.IsZero() || rootcut.After(bound)) {
 		r.violate("ComposedMin", fmt.Sprintf("%s: the request-tree cut is %s but a cached piece / lease beneath it ends at %s",
@@ -804,6 +868,7 @@ func (r *run) tick(d int64) {
 			}
 		}
 	}
+	r.d64.tick(dd)
 	r.vnow += d
 }
 
@@ -926,6 +991,9 @@ func (r *run) doStep(st step, exp *expState) (drift string, err error) {
 		if st.Op == "CacheWrite" {
 			raw, aux := argInt(a[1]), argInt(a[2])
 			sl.pend = append(sl.pend, pending{lvl: sl.lvl, key: sl.hop, id: st.Pre, raw: raw, aux: aux})
+			if sl.hop == r.in.V6Key && sl.lvl == 1 && r.in.V6Key != "" {
+				r.d64.failClear() // a useful answer reaches the client path through the cache writer: the record is dropped
+			}
 			sl.cmd <- command{answer: true, raw: raw, aux: aux, id: st.Pre}
 		} else {
 			sl.failed = true
@@ -968,6 +1036,9 @@ func (r *run) doStep(st step, exp *expState) (drift string, err error) {
 			r.store.SetFromResponseScoped(r.key64(key), resp, scope, cut, 0)
 		} else {
 			r.store.SetFromResponseWithCut(resp, false, cut, 0x77)
+			if key == r.in.V6Key && key != "" {
+				r.d64.failClear() // Store.resetQuestionFailure: an unscoped write of a useful answer drops the record
+			}
 		}
 		r.stored(key, st.Pre, raw, aux, time.Now(), cut, ev)
 	case "CutWrite", "ProofWrite":
@@ -1043,6 +1114,12 @@ func (r *run) doStep(st step, exp *expState) (drift string, err error) {
 		}
 		pcs := r.complete(sl, ev, where)
 		return r.compareReply(exp, pcs, sl.w.Written(), where), nil
+	case "Hit64":
+		return r.stepHit64(argStr(a[0]), false, exp, ev, where)
+	case "Fail64":
+		return r.stepHit64(argStr(a[0]), true, exp, ev, where)
+	case "HitFail":
+		return r.stepHitFail(argStr(a[0]), exp, ev, where)
 	case "PrefetchStart":
 		key := argStr(a[0])
 		e, ok := r.store.Lookup(question(key))
@@ -1106,6 +1183,9 @@ func (r *run) doStep(st step, exp *expState) (drift string, err error) {
 			r.c.Purge(dns.Question{Name: "m.zd.", Qtype: dns.TypeA, Qclass: dns.ClassINET})
 		default:
 			r.c.Purge(question(q).Question[0])
+			if q == r.in.V6Key && q != "" {
+				r.d64.failClear()
+			}
 		}
 	case "TickA":
 		r.tick(argInt(a[0]))
@@ -1161,12 +1241,22 @@ func (r *run) runBehaviour(b behaviour) error {
 	r.cur = &b
 	cfg := &config.Config{CacheSize: 1024, Expire: uint32(r.in.CutMax), RateLimit: 0, Prefetch: 0}
 	cfg.ECS.CacheLimitTTL.Duration = time.Duration(r.in.EcsCap) * time.Second
+	if r.in.FailTTL > 0 {
+		// one back-off length: a repeated failure does not grow it (the model has no streak counter)
+		cfg.RecursionFirewall.FailureCacheMinTTL.Duration = time.Duration(r.in.FailTTL) * time.Second
+		cfg.RecursionFirewall.FailureCacheMaxTTL.Duration = time.Duration(r.in.FailTTL) * time.Second
+	}
 	r.c = mcache.New(cfg)
 	defer r.c.Stop()
 	r.store = r.c.VerifC04Store()
 	d := &downstream{r: r}
 	r.chain = []middleware.Handler{r.c, d}
 	r.c.SetQueryer(&queryer{r: r})
+	r.front = r.chain
+	r.d64 = d64State{}
+	if r.in.V6Key != "" {
+		r.front = append([]middleware.Handler{newDNS64(&queryer{r: r})}, r.chain...)
+	}
 	r.ents = map[int64]*entInfo{}
 	r.slots = map[int]*slot{}
 	for i := 1; i <= 3; i++ {
@@ -1246,6 +1336,10 @@ func TestLeaseReplay(t *testing.T) {
 		defer out.Close()
 	}
 	r := &run{in: &in, res: res}
+	v6Key, v4Key, negName = in.V6Key, in.V4Key, "ng"
+	if in.NegKey != "" {
+		negName = in.NegKey
+	}
 	for bi, b := range in.Behaviours {
 		if err := r.runBehaviour(b); err != nil {
 			res.Skip("behaviour %s: %v (history %v)", b.ID, err, r.hist)
